@@ -870,7 +870,7 @@ def _py_stmt(rnd, st, names):
     Its identifiers are added to `names` (they are known names while the mixture is parsed)."""
     import ast
 
-    from vlib import pygen, stylist
+    from vlib import c01_findings, pygen, pyoracle, stylist
 
     g = pygen.Gen(rnd, budget=12)
     tree = ast.Module(body=[g.stmt(1)], type_ignores=[])
@@ -882,6 +882,11 @@ def _py_stmt(rnd, st, names):
     except (SyntaxError, ValueError, RecursionError, MemoryError):
         return None
     text = stylist.Styler(rnd).restyle(src, max_transforms=2)
+    # the same precondition as family (a): the C01 oracle holds and no recorded C01 shape occurs
+    r = pyoracle.compare(text, "exec", do_compile=False)
+    if r.kind != "ok" or c01_findings.features(pyoracle.prep(text, "exec"), r.ctree):
+        st.hist["mixture:python-statement-skipped-c01"] += 1
+        return None
     for node in ast.walk(tree):
         if isinstance(node, ast.Name):
             names.add(node.id)
